@@ -105,6 +105,47 @@ def random_circuit(rng, n_inputs=None, n_gates=None, types=None, labels_prefix=N
     return {'inputs': ins, 'outputs': outs, 'gates': gates, 'users': ulist, 'blocks': blocks}
 
 
+TINY_TYPES = ['NOT', 'AND', 'XOR', 'GT', 'LIFF', 'ALWAYS_TRUE']
+
+
+def tiny_netlists(max_inputs=2, max_gates=2, types=None):
+    """EXHAUSTIVE enumeration of all netlists with <= max_inputs inputs and <= max_gates gates over
+    a reduced type set (binary arity for n-ary types, operands chosen with repetition among all
+    earlier labels), every gate an output candidate: outputs = [last gate] (and, when it is not
+    the last gate, the first input, so that outputs that are inputs occur)"""
+    import itertools
+    types = types or TINY_TYPES
+
+    def arity(t):
+        return {'NOT': 1, 'ALWAYS_TRUE': 0, 'ALWAYS_FALSE': 0, 'IFF': 1}.get(t, 2)
+
+    for n in range(max_inputs + 1):
+        inputs = [f'i{k}' for k in range(n)]
+        for g in range(max_gates + 1):
+            def rec(k, avail, gates):
+                if k == g:
+                    yield list(gates)
+                    return
+                for t in types:
+                    a = arity(t)
+                    if a > 0 and not avail:
+                        continue
+                    for ops in itertools.product(avail, repeat=a):
+                        l = f'g{k}'
+                        yield from rec(k + 1, avail + [l], gates + [(l, t, list(ops))])
+            for gates in rec(0, list(inputs), []):
+                order = [(i, 'INPUT', []) for i in inputs] + gates
+                if not order:
+                    continue
+                users = {}
+                for l, t, ops in order:
+                    for o in ops:
+                        users.setdefault(o, []).append(l)
+                outs = [order[-1][0]] + ([inputs[0]] if inputs and gates else [])
+                yield {'inputs': list(inputs), 'outputs': outs, 'gates': order, 'users': list(users.items()),
+                       'blocks': []}
+
+
 def malformed_variant(rng, dump):
     """a netlist the library's own mutators would not build (acyclic, so evaluators terminate):
     dangling operand, wrong arity, INPUT gate missing from the input list, non-INPUT label in the
